@@ -407,6 +407,92 @@ func concScenarios(which string) []cScenario {
 	return all[which]
 }
 
+// generated scenarios: 2-3 actors with 1-3 operations each over two keys (autocommit and transactional
+// operations of all levels, collector, pool drain), yield points outside the critical sections of the
+// real code (so that no actor blocks on a lock and the run can be replayed in the small-step model).
+func genScenarios(which string, seed uint64, n int) []cScenario {
+	rng := &seqRng{s: seed*991 + uint64(len(which))*131 + 17}
+	k1, k2 := hexKey("k1"), hexKey("k2")
+	keys := []string{k1, k2}
+	var out []cScenario
+	for g := 0; g < n; g++ {
+		sc := cScenario{Name: fmt.Sprintf("gen-%d", g), Roots: 1 + rng.n(2), Actors: map[string][]string{},
+			Points: map[string]bool{"uget.afterLookup": true, "ukeys.afterLookup": true, "gc.horizon": true, "gc.collected": true,
+				"utx.start": true, "begin.start": true}}
+		if rng.n(4) > 0 {
+			sc.Setup = append(sc.Setup, fmt.Sprintf("s 0 %s %d", k1, 300+g))
+		}
+		if rng.n(3) == 0 {
+			sc.Setup = append(sc.Setup, fmt.Sprintf("s 0 %s %d", k2, 310+g))
+		}
+		na := 2 + rng.n(2)
+		content := 400 + 10*g
+		total := 0
+		for a := 0; a < na; a++ {
+			name := string(rune('A' + a))
+			sc.Order = append(sc.Order, name)
+			var prog []string
+			kind := rng.n(10)
+			if which == "c06" && kind >= 7 {
+				kind = rng.n(7) // fewer snapshot transactions in the C06 profile
+			}
+			tx := a + 1
+			key := func() string { return keys[rng.n(2)] }
+			switch {
+			case kind < 2: // autocommit reader
+				prog = append(prog, "g 0 "+key())
+				if rng.n(2) == 0 {
+					prog = append(prog, "k 0")
+				} else {
+					prog = append(prog, "g 0 "+key())
+				}
+			case kind < 4: // autocommit writer
+				content++
+				prog = append(prog, fmt.Sprintf("s 0 %s %d", key(), content))
+				if rng.n(3) == 0 {
+					prog = append(prog, "d 0 "+key())
+				} else if rng.n(2) == 0 {
+					prog = append(prog, "g 0 "+key())
+				}
+			case kind < 5: // collector (+ pool)
+				prog = append(prog, "gc")
+				if rng.n(2) == 0 {
+					prog = append(prog, "drain")
+				}
+			case kind < 7: // RU / RC transaction
+				lvl := []string{"RU", "RC"}[rng.n(2)]
+				prog = append(prog, fmt.Sprintf("b %d %s", tx, lvl))
+				if rng.n(3) > 0 {
+					content++
+					prog = append(prog, fmt.Sprintf("s %d %s %d", tx, key(), content))
+				}
+				prog = append(prog, fmt.Sprintf("g %d %s", tx, key()))
+				prog = append(prog, []string{"c", "c", "r"}[rng.n(3)]+fmt.Sprintf(" %d", tx))
+			default: // snapshot transaction
+				lvl := []string{"RR", "SER"}[rng.n(2)]
+				prog = append(prog, fmt.Sprintf("b %d %s", tx, lvl))
+				if rng.n(2) == 0 {
+					content++
+					prog = append(prog, fmt.Sprintf("s %d %s %d", tx, key(), content))
+					prog = append(prog, fmt.Sprintf("c %d", tx))
+				} else {
+					kk := key()
+					prog = append(prog, fmt.Sprintf("g %d %s", tx, kk), fmt.Sprintf("g %d %s", tx, kk), fmt.Sprintf("r %d", tx))
+				}
+			}
+			total += len(prog)
+			sc.Actors[name] = prog
+		}
+		if total > 8 {
+			g--
+			continue
+		}
+		sc.Final = []string{"g 0 " + k1, "g 0 " + k2, "k 0"}
+		out = append(out, sc)
+	}
+	return out
+}
+
 func TestVerifConc(t *testing.T) {
 	out := os.Getenv("VERIF_OUT")
 	if out == "" {
@@ -433,7 +519,16 @@ func TestVerifConc(t *testing.T) {
 			}
 		}
 	}
-	for _, sc := range concScenarios(which) {
+	scenarios := concScenarios(which)
+	ngen, _ := strconv.Atoi(os.Getenv("VERIF_GEN"))
+	genRuns, _ := strconv.Atoi(os.Getenv("VERIF_GENRUNS"))
+	nfixedSc := len(scenarios)
+	scenarios = append(scenarios, genScenarios(which, seed, ngen)...)
+	for si, sc := range scenarios {
+		maxRuns := maxRuns
+		if si >= nfixedSc && genRuns > 0 {
+			maxRuns = genRuns
+		}
 		if len(fixed) > 0 {
 			for _, fx := range fixed {
 				if fx[0] == sc.Name {
